@@ -253,6 +253,9 @@ package internal
 // the freshness value f carries at least the RFC 9111 4.2.3 age entry e had at that moment (a
 // request's max-age=0 makes CalculateFreshness answer "age 0, lifetime 0", which does not).
 //@ ghost var freshCalcAt time.Time
+// lastVerdictStale: the IsStale verdict of the last freshness calculation (C09: a response judged
+// fresh is served from the store unless a directive demands validation)
+//@ ghost var lastVerdictStale bool
 //@ spec func realAge(f *Freshness, e *Response) bool = f.Age.Value >= ageAt(initialAge(hget(e.Data.Header, "Age"), dateOf(e.Data.Header), e.RequestedAt, e.ReceivedAt), e.ReceivedAt, freshCalcAt)
 //@ iface FreshnessCalculator.CalculateFreshness(f, entry, reqCC, resCC)
 //@   property C01 C02 C09 C11 C13
@@ -261,16 +264,18 @@ package internal
 //@   let date = dateOf(hdr)
 //@   let a0 = initialAge(hget(hdr, "Age"), date, entry.RequestedAt, entry.ReceivedAt)
 //@   let L = reqCap(lifeUpper(hdr, entry.Data.StatusCode, hasArr(resCC), valArr(resCC), date), hasArr(reqCC), valArr(reqCC))
-//@   assigns now, freshCalcAt
+//@   assigns now, freshCalcAt, lastVerdictStale
 //@   fresh
 //@   ensures result != nil && result.Age != nil && fresh(result.Age)                                  # name: shape
-//@   ensures freshCalcAt == old(now)                                                                  # ghost-update
+//@   ensures freshCalcAt == old(now) && lastVerdictStale == result.IsStale                            # ghost-update
 //@   let reqZero = ccValid(reqCC, "max-age") && ccDur(reqCC, "max-age") == 0
 //@   ensures !reqZero ==> result.Age.Value >= ageAt(a0, entry.ReceivedAt, old(now))                  # name: age-lower
 //@   ensures result.Age.Value <= ageAt(a0, entry.ReceivedAt, result.Age.Timestamp)                  # name: age-upper
 //@   ensures reqZero ==> result.IsStale && result.UsefulLife == 0 && result.Age.Value == 0          # name: request-max-age-zero
 //@   ensures ns(result.Age.Timestamp) >= ns(old(now)) && ns(result.Age.Timestamp) <= ns(now)         # name: timestamp
 //@   ensures result.UsefulLife >= 0 && result.UsefulLife <= L                                        # name: lifetime-upper
+//@   ensures !reqZero && ccValid(resCC, "max-age") ==> result.UsefulLife == L                                  # name: lifetime-exact-for-max-age   props: C09
+//@   ensures !reqZero && !has(reqCC, "min-fresh") && result.Age.Value < result.UsefulLife ==> !result.IsStale    # name: fresh-when-younger-than-its-lifetime   props: C09
 //@   ensures !result.IsStale ==> (result.Age.Value < result.UsefulLife && minFreshOK(result.Age.Value, result.UsefulLife, hasArr(reqCC), valArr(reqCC))) || maxStaleOK(result.Age.Value, result.UsefulLife, hasArr(reqCC), valArr(reqCC))   # name: fresh-means
 
 //@ func (*freshnessCalculator).CalculateFreshness
@@ -960,3 +965,65 @@ package internal
 //@   assigns lastResolved
 //@   ensures u.Opaque != "" ==> result == u.Opaque                                                      # name: opaque-is-the-key
 //@   ensures u.Opaque == "" ==> result == composeKey(u) || (fresh(lastResolved) && result == composeKey(lastResolved))     # name: key-is-scheme-authority-path-query
+
+// ---- constructors (C20, wiring): each returns a new, non-nil component and touches nothing else
+//@ func NewCacheabilityEvaluator
+//@   property C20
+//@   pure
+//@   ensures result != nil
+//@ func NewStaleIfErrorPolicy
+//@   property C20
+//@   pure
+//@   ensures result != nil
+//@ func NewCacheInvalidator
+//@   property C20
+//@   pure
+//@   ensures result != nil
+//@ func NewClock
+//@   property C20
+//@   pure
+//@   ensures result != nil
+//@ func NewFreshnessCalculator
+//@   property C20
+//@   pure
+//@   ensures result != nil
+//@ func NewLogger
+//@   property C20
+//@   pure
+//@   ensures result != nil
+//@ func NewVaryHeaderNormalizer
+//@   property C20
+//@   pure
+//@   ensures result != nil
+//@ func NewHeaderValueNormalizer
+//@   property C20
+//@   pure
+//@   ensures result != nil
+//@ func NewVaryKeyer
+//@   property C20
+//@   pure
+//@   ensures result != nil
+//@ func NewRequestMethodChecker
+//@   property C20
+//@   pure
+//@   ensures result != nil
+//@ func NewResponseCache
+//@   property C20
+//@   pure
+//@   ensures result != nil
+//@ func NewResponseStorer
+//@   property C20
+//@   pure
+//@   ensures result != nil
+//@ func NewURLKeyer
+//@   property C20
+//@   pure
+//@   ensures result != nil
+//@ func NewValidationResponseHandler
+//@   property C20
+//@   pure
+//@   ensures result != nil
+//@ func NewVaryMatcher
+//@   property C20
+//@   pure
+//@   ensures result != nil
